@@ -203,6 +203,9 @@ func (a Array) Less(v Value) bool {
 	}
 	for i, av := range a.values[:n] {
 		bv := b.values[i]
+		if av == nil && bv == nil {
+			continue
+		}
 		if bv == nil {
 			return av != nil
 		}
